@@ -81,6 +81,10 @@ class Check(Property):
             for r in range(reps):
                 self.bump("custom")
                 out.append({"kind": "function", "name": n, "cls": "prod", "policy": None, "seed": rng.getrandbits(32), "ops": []})
+        # bare numbers given where a quantity is expected by the functions that bring their arguments to consistent units
+        for r in range(12 if self.tier == "quick" else 200):
+            self.bump("bare numbers in consistent-unit functions")
+            out.append({"kind": "barenum", "name": "bare", "cls": "barenum", "seed": rng.getrandbits(32), "policy": None, "ops": []})
         # get_op_output_unit against the model
         fams = [LEN, TIME, ["kelvin", "degree_Celsius", "degree_Fahrenheit"], ["gram", "kilogram"]]
         for _ in range(150 if self.tier == "quick" else 3000):
@@ -310,8 +314,52 @@ class Check(Property):
             ok = str(p1[1]) == str(p2[1])
         return bool(ok) and (p1[0] == "bare" or p1[2] == p2[2])
 
+    def oracle_barenum(self, c):
+        """a bare number is a dimensionless quantity: with a dimensional array it is refused (DimensionalityError), with a
+        dimensionless array in a scaled unit (percent) it is converted like Quantity(number, 'dimensionless')"""
+        import numpy as np
+        v = []
+        u = regs.ureg("float")
+        rng = random.Random(c["seed"])
+        vals = np.array([float(rng.randint(1, 9)) for _ in range(4)])
+        lo, hi = float(rng.randint(1, 3)), float(rng.randint(5, 8))
+        qd = u.Quantity(vals, rng.choice(LEN))
+        qp = u.Quantity(vals * 50.0, "percent")
+        D = lambda x: u.Quantity(x, "dimensionless")  # noqa: E731
+        calls = [("clip", lambda q, w: np.clip(q, w(lo / 2), w(hi / 2))), ("append", lambda q, w: np.append(q, w(np.array([lo])))),
+                 ("insert", lambda q, w: np.insert(q, 1, w(lo))), ("max(initial)", lambda q, w: np.max(q, initial=w(hi * 10))),
+                 ("searchsorted", lambda q, w: np.searchsorted(np.sort(q), w(lo))), ("linspace", lambda q, w: np.linspace(q[0], w(hi), 3)),
+                 ("where", lambda q, w: np.where(q.magnitude > 4, q, w(lo))),
+                 ("isclose", lambda q, w: np.isclose(q, w(lo))), ("concatenate", lambda q, w: np.concatenate([q, w(np.array([lo]))]))]
+        ident = lambda x: x  # noqa: E731
+        with warnings.catch_warnings():
+            warnings.simplefilter("ignore")
+            for name, fn in calls:
+                tag = f"C16 np.{name} with a bare number (seed {c['seed']})"
+                # (i) dimensional array, bare number: the answer of the same call with an explicit dimensionless quantity
+                def outcome(q, w):
+                    try:
+                        return ("ok", fn(q, w))
+                    except Exception as exc:  # noqa: BLE001
+                        return ("err", type(exc).__name__)
+                for q, label in ((qd, "a dimensional array"), (qp, "a percent array")):
+                    got, ref = outcome(q, ident), outcome(q, D)
+                    if got[0] != ref[0] or (got[0] == "err" and got[1] != ref[1]):
+                        v.append(f"{tag}, {label} {q!r}: bare {got[1] if got[0] == 'err' else repr(got[1])}, with Quantity(x, 'dimensionless') "
+                                 f"{ref[1] if ref[0] == 'err' else repr(ref[1])}")
+                    elif got[0] == "ok":
+                        a_, b_ = got[1], ref[1]
+                        ua, ub = getattr(a_, "units", None), getattr(b_, "units", None)
+                        same = (ua is None) == (ub is None) and np.allclose(np.asarray(getattr(a_, "magnitude", a_), dtype=float),
+                                                                          np.asarray(b_.to(ua).magnitude if ua is not None else b_, dtype=float), rtol=1e-12)
+                        if not same:
+                            v.append(f"{tag}, {label} {q!r}: bare number gives {a_!r}, Quantity(x, 'dimensionless') gives {b_!r}")
+        return v
+
     def oracle(self, c):
         import numpy as np
+        if c["kind"] == "barenum":
+            return self.oracle_barenum(c)
         if c["kind"] == "opunit":
             return []
         v = []
